@@ -173,7 +173,7 @@ class Earley:
         Q = LocatorMaxHeap()
 
         # SCAN: phrase(I, X/Ys, K) += phrase(I, X/[Y|Ys], J) * word(J, Y, K)
-        for item in prev_col.waiting_for[token]:
+        for item in prev_col.waiting_for.get(token, ()):
             (I, X, Ys) = item
             _update(next_col, Q, I, X, rest_Ys[Ys], prev_col_i_chart[item])
 
@@ -185,7 +185,7 @@ class Earley:
             col_J = prev_cols[J]
             col_J_i_chart = col_J.i_chart
             y = next_col_c_chart[jy]
-            for customer in col_J.waiting_for[Y]:
+            for customer in col_J.waiting_for.get(Y, ()):
                 (I, X, Ys) = customer
                 _update(next_col, Q, I, X, rest_Ys[Ys], col_J_i_chart[customer] * y)
 
@@ -319,7 +319,9 @@ class Earley:
             t = node.cursor
 
             if node.edges is None:
-                node.edges = [x for x in cols[J].waiting_for[Y] if self.unit_Ys[x[2]]]
+                node.edges = [
+                    x for x in cols[J].waiting_for.get(Y, ()) if self.unit_Ys[x[2]]
+                ]
 
             # cursor is at the end, all neighbors are done
             elif t == len(node.edges):
